@@ -35,7 +35,6 @@ func NewServer(parse ParseFn, options ...OptionFn) (*Server, error) {
 		parse:      parse,
 		logger:     slog.Default(),
 		closer:     make(chan struct{}),
-		types:      pgtype.NewMap(),
 		Statements: DefaultStatementCacheFn,
 		Portals:    DefaultPortalCacheFn,
 		Session:    func(ctx context.Context) (context.Context, error) { return ctx, nil },
@@ -57,7 +56,7 @@ type Server struct {
 	mu              sync.Mutex // guards the closing transition and the admission of new commands
 	wg              sync.WaitGroup
 	logger          *slog.Logger
-	types           *pgtype.Map
+	types           []func(*pgtype.Map)
 	Auth            AuthStrategy
 	BufferedMsgSize int
 	Parameters      Parameters
@@ -124,7 +123,7 @@ func (srv *Server) Serve(listener net.Listener) error {
 }
 
 func (srv *Server) serve(ctx context.Context, conn net.Conn) error {
-	ctx = setTypeInfo(ctx, srv.types)
+	ctx = setTypeInfo(ctx, srv.typeMap())
 	ctx = setRemoteAddress(ctx, conn.RemoteAddr())
 	defer conn.Close()
 
@@ -171,6 +170,19 @@ func (srv *Server) serve(ctx context.Context, conn net.Conn) error {
 	}
 
 	return session.consumeCommands(ctx, conn, reader, writer)
+}
+
+// typeMap constructs the type map of a single connection. A type map caches
+// encode and decode plans while it is used and is not safe for concurrent use,
+// each connection therefore gets a map of its own including all type
+// extensions.
+func (srv *Server) typeMap() *pgtype.Map {
+	types := pgtype.NewMap()
+	for _, extend := range srv.types {
+		extend(types)
+	}
+
+	return types
 }
 
 // Close gracefully closes the underlaying Postgres server. Close returns once
